@@ -1007,3 +1007,137 @@ func init() {
 		},
 	}
 }
+
+func factorisations(n int, maxRank int) [][]int {
+	var out [][]int
+	var rec func(rem int, cur []int)
+	rec = func(rem int, cur []int) {
+		if len(cur) > 0 && rem == 1 {
+			out = append(out, append([]int(nil), cur...))
+		}
+		if len(cur) >= maxRank {
+			return
+		}
+		for d := 1; d <= rem; d++ {
+			if rem%d == 0 && !(d == 1 && len(cur) > 0 && cur[len(cur)-1] == 1) {
+				rec(rem/d, append(cur, d))
+			}
+		}
+	}
+	rec(n, nil)
+	return out
+}
+
+func init() {
+	props["C13"] = &propDef{
+		ID:       "C13",
+		Anchored: []string{"Shape).S", "Shape).Repeat", "Shape).Concat", "AP).S", "AP).T", ").Reshape", ").reshape", ").setShape", ").sanity", "TotalSize", "CalcStrides", "ProdInts"},
+		Bounds: map[string]interface{}{"slice": "parent shapes (5), (2,5), (3,4), (1,3), (2,3,2); triples symbolic in [-2, dim+2], single indices unbounded; Shape.S compared with Dense.Slice (shape and error)",
+			"repeat": "axis symbolic in [-1, rank+1], counts symbolic 0..2 (solver-enumerated)", "concat": "operand dims symbolic 1..2 (rank<=2) / 1..3 thorough, axis symbolic in [-1, rank+1]", "transpose": "symbolic axes (all permutations)",
+			"reshape": "every factorisation (rank<=3) of the size after layouts C,F,T,S,SS,M and a pending lazy transpose; symbolic target dims 1..12 for the size check", "metadata": "two symbolic in-range coordinate vectors: offsets in bounds and distinct, for layouts x {T, T+Transpose, clone, materialize, slice}"},
+		Instances: func(tier string, seed int64) []Instance {
+			var out []Instance
+			type sp struct {
+				s     []int
+				kinds []string
+			}
+			sl := []sp{{[]int{5}, []string{"r", "i"}}, {[]int{2, 5}, []string{"nr", "rn", "ri", "ir", "r", "i", "ii"}}, {[]int{3, 4}, []string{"nr", "rn"}}, {[]int{1, 3}, []string{"ni", "nr", "in", "rn"}}, {[]int{2, 3, 2}, []string{"nrn", "nnr", "inr", "rii"}}}
+			if tier == "thorough" {
+				sl = append(sl, sp{[]int{2, 5}, []string{"rr"}}, sp{[]int{4, 3}, []string{"rr", "nr"}}, sp{[]int{3, 1}, []string{"rn", "nr", "ii"}}, sp{[]int{2, 2, 3}, []string{"nnr", "rnr"}})
+			}
+			for _, s := range sl {
+				for _, k := range s.kinds {
+					for _, base := range []string{"C", "F", "T"} {
+						if tier == "quick" && base != "C" && len(k) > 1 && k[0] == 'r' {
+							continue
+						}
+						out = append(out, mkInst("vhC13Slice", map[string]interface{}{"shape": s.s, "kinds": k, "box": 2, "base": base}, "shape", "kinds", "base"))
+					}
+				}
+			}
+			for _, sh := range [][]int{{3}, {2, 3}, {1, 3}, {3, 1}, {2, 2, 2}, {}} {
+				dimsN := map[int]bool{1: true}
+				for _, d := range sh {
+					dimsN[d] = true
+				}
+				dimsN[prodInts(sh)] = true
+				for nrep := range dimsN {
+					if nrep > 3 && tier == "quick" {
+						continue
+					}
+					out = append(out, mkInst("vhC13Repeat", map[string]interface{}{"shape": sh, "nrep": nrep}, "shape", "nrep"))
+				}
+			}
+			out = append(out, mkInst("vhC13Concat", map[string]interface{}{"rank": 1, "maxdim": 3}, "rank"))
+			out = append(out, mkInst("vhC13Concat", map[string]interface{}{"rank": 2, "maxdim": 2}, "rank"))
+			if tier == "thorough" {
+				out = append(out, mkInst("vhC13Concat", map[string]interface{}{"rank": 2, "maxdim": 3}, "rank", "maxdim"))
+				out = append(out, mkInst("vhC13Concat", map[string]interface{}{"rank": 3, "maxdim": 2}, "rank"))
+			}
+			for _, sh := range [][]int{{3}, {2, 3}, {1, 3}, {2, 3, 2}, {2, 2, 2, 2}} {
+				if len(sh) == 4 && tier == "quick" {
+					continue
+				}
+				for _, base := range []string{"C", "F", "S"} {
+					if layoutOK(sh, base) {
+						out = append(out, mkInst("vhC13T", map[string]interface{}{"shape": sh, "base": base}, "shape", "base"))
+					}
+				}
+			}
+			for _, sh := range [][]int{{6}, {2, 3}, {3, 2}, {1, 6}, {2, 3, 2}, {4}, {2, 2}} {
+				n := prodInts(sh)
+				tos := factorisations(n, 3)
+				tos = append(tos, []int{n + 1}, []int{2, n})
+				for _, lay := range []string{"C", "F", "T", "S", "SS", "M"} {
+					if !layoutOK(sh, lay) {
+						continue
+					}
+					for _, lt := range []int{0, 1} {
+						if lt == 1 && (lay == "T" || len(sh) < 2) {
+							continue
+						}
+						for ti, to := range tos {
+							if tier == "quick" && len(tos) > 6 && (ti+len(lay)+lt)%3 != 0 {
+								continue
+							}
+							out = append(out, mkInst("vhC13Reshape", map[string]interface{}{"shape": sh, "to": to, "layout": lay, "lazyT": lt, "thenT": (ti + lt) % 2, "pre": ""}, "shape", "to", "layout", "lazyT", "thenT"))
+						}
+					}
+				}
+			}
+			// views cut with a partial slice list (window on the leading axis), row- and column-major, then reshape
+			for _, sh := range [][]int{{4, 3}, {3, 2}, {4, 2, 2}, {6, 1}, {1, 6}} {
+				for _, base := range []string{"C", "F"} {
+					for _, pre := range []string{"W", "TW", "WT", "T"} {
+						n := prodInts(sh)
+						if sh[0] >= 3 && (pre == "W" || pre == "WT") {
+							n = n / sh[0] * (sh[0] - 1)
+						}
+						if pre == "TW" && sh[len(sh)-1] >= 3 {
+							n = n / sh[len(sh)-1] * (sh[len(sh)-1] - 1)
+						}
+						for ti, to := range append(factorisations(n, 2), []int{n + 1}) {
+							out = append(out, mkInst("vhC13Reshape", map[string]interface{}{"shape": sh, "to": to, "layout": base, "lazyT": 0, "thenT": (ti + 1) % 2, "pre": pre}, "shape", "to", "layout", "pre", "thenT"))
+						}
+					}
+				}
+			}
+			for _, sh := range [][]int{{6}, {2, 3}, {2, 3, 2}} {
+				for nd := 1; nd <= 3; nd++ {
+					out = append(out, mkInst("vhC13ReshapeSym", map[string]interface{}{"shape": sh, "ndims": nd}, "shape", "ndims"))
+				}
+			}
+			for _, sh := range [][]int{{3}, {2, 3}, {1, 3}, {3, 1}, {2, 3, 2}, {2, 1, 2}} {
+				for _, lay := range []string{"C", "F", "T", "S", "SS", "M"} {
+					if !layoutOK(sh, lay) {
+						continue
+					}
+					for _, post := range []string{"", "T", "TX", "clone", "mat", "slice0"} {
+						out = append(out, mkInst("vhC13Meta", map[string]interface{}{"shape": sh, "layout": lay, "post": post}, "shape", "layout", "post"))
+					}
+				}
+			}
+			return out
+		},
+	}
+}
